@@ -42,10 +42,22 @@ pub fn build(n: usize, runs: &[(usize, usize)], d: Decomp, rng: &mut Rng) -> Res
         },
         Decomp::SplitWithSetLen => {
             // set_len interleaved: before a run, extend the length up to (at most) the start of that run.
+            // The runs are also split into adjacent pieces, so that a set_len that changes nothing (any value up to the
+            // current length) can fall between two pieces of the same run.
+            let mut pieces: Vec<(usize, usize)> = Vec::new();
+            for &(s, l) in runs {
+                let (mut start, mut left) = (s, l);
+                while left > 0 {
+                    let take = if left == 1 || rng.chance(1, 2) { left } else { 1 + rng.below(left) };
+                    pieces.push((start, take));
+                    start += take;
+                    left -= take;
+                }
+            }
             let mut choices: Vec<(usize, usize, Option<usize>)> = Vec::new();
             let mut end = 0usize;
-            for &(s, l) in runs {
-                let pre = if s > end && rng.chance(1, 2) { Some(end + 1 + rng.below(s - end)) } else if rng.chance(1, 6) { Some(rng.below(s + 1)) } else { None };
+            for &(s, l) in pieces.iter() {
+                let pre = if s > end && rng.chance(1, 2) { Some(end + 1 + rng.below(s - end)) } else if rng.chance(1, 3) { Some(if rng.chance(1, 2) { end } else { rng.below(end + 1) }) } else { None };
                 choices.push((s, l, pre));
                 end = s + l;
             }
